@@ -14,7 +14,7 @@ Definition mid := mkModule [(DJson, Untrusted)] [(DText, Validated)] [CNet; CExe
 Definition snk := mkModule [(DText, Validated)] [] [CWriteFs].
 Definition snk2 := mkModule [(DText, Validated); (DText, Untrusted)] [] [CWriteFs].
 
-Definition good_h : hscript := HSRet [(0%nat, Raw 1); (1%nat, Lab (mkTV DJson Untrusted 2))].
+Definition good_h : hscript := HSRet [(0%nat, SV (Raw 1)); (1%nat, SV (Lab (mkTV DJson Untrusted 2)))].
 Definition hs (l : list hscript) (m : nat) : option handler :=
   match nth_error l m with Some s => interp_h s | None => None end.
 
@@ -34,7 +34,7 @@ Proof. repeat split. Qed.
 (* ---- a successful execution needing two sweeps: order m1, m2, m0 ---- *)
 Definition ok_mods := [snk; src; mid].
 Definition ok_attempts : list wire := [(2, 0, 0, 0); (1, 1, 2, 0); (1, 0, 2, 0)]%nat.   (* the last is refused *)
-Definition ok_hs := hs [HSNone; good_h; HSRet [(0%nat, Raw 10)]].
+Definition ok_hs := hs [HSNone; good_h; HSRet [(0%nat, SV (Raw 10))]].
 
 Example ex_build : build ok_mods ok_attempts = [(2, 0, 0, 0); (1, 1, 2, 0)]%nat.
 Proof. reflexivity. Qed.
@@ -53,10 +53,10 @@ Example ex_external_higher :
 Proof. reflexivity. Qed.
 
 (* ---- mislabelled output: the hypotheses of c16_mislabelled_output_rejected hold ---- *)
-Definition bad_h : hscript := HSRet [(0%nat, Lab (mkTV DText Validated 1)); (1%nat, Raw 2)].
+Definition bad_h : hscript := HSRet [(0%nat, SV (Lab (mkTV DText Validated 1))); (1%nat, SV (Raw 2))].
 
 Example ex_mislabelled :
-  let handlers := hs [HSNone; bad_h; HSRet [(0%nat, Raw 10)]] in
+  let handlers := hs [HSNone; bad_h; HSRet [(0%nat, SV (Raw 10))]] in
   exists h,
     execute ok_mods (build ok_mods ok_attempts) handlers true [] = (Raised EOutInteg, [(1%nat, [])]) /\
     handlers 1%nat = Some h /\ h [] = HRet [(0%nat, Lab (mkTV DText Validated 1)); (1%nat, Raw 2)] /\
@@ -69,7 +69,7 @@ Qed.
 
 (* too-high integrity on an output is rejected as well (exact match is required) *)
 Example ex_mislabelled_high :
-  fst (execute [mkModule [] [(DText, Untrusted)] []] [] (hs [HSRet [(0%nat, Lab (mkTV DText Trusted 1))]]) true [])
+  fst (execute [mkModule [] [(DText, Untrusted)] []] [] (hs [HSRet [(0%nat, SV (Lab (mkTV DText Trusted 1)))]]) true [])
   = Raised EOutInteg.
 Proof. reflexivity. Qed.
 
@@ -80,7 +80,7 @@ Definition cyc_attempts : list wire := [(0, 0, 1, 0); (1, 0, 0, 0)]%nat.
 
 Example ex_cycle :
   cyclic (build [a; a] cyc_attempts) /\
-  execute [a; a] (build [a; a] cyc_attempts) (hs [HSRet [(0%nat, Raw 1)]; HSRet [(0%nat, Raw 1)]]) true []
+  execute [a; a] (build [a; a] cyc_attempts) (hs [HSRet [(0%nat, SV (Raw 1))]; HSRet [(0%nat, SV (Raw 1))]]) true []
   = (Raised ECannotResolve, []).
 Proof.
   split; [|reflexivity]. exists 0%nat.
@@ -91,12 +91,12 @@ Qed.
 (* self-loop *)
 Example ex_self_loop :
   cyclic (build [a] [(0, 0, 0, 0)%nat]) /\
-  fst (execute [a] (build [a] [(0, 0, 0, 0)%nat]) (hs [HSRet [(0%nat, Raw 1)]]) true []) = Raised ECannotResolve.
+  fst (execute [a] (build [a] [(0, 0, 0, 0)%nat]) (hs [HSRet [(0%nat, SV (Raw 1))]]) true []) = Raised ECannotResolve.
 Proof. split; [|reflexivity]. exists 0%nat. apply (path_one _ (0, 0, 0, 0)%nat). cbn. auto. Qed.
 
 (* a cycle whose back edge is also fed from outside: the module runs, the delivery raises *)
 Example ex_cycle_external :
-  execute [a] (build [a] [(0, 0, 0, 0)%nat]) (hs [HSRet [(0%nat, Raw 1)]]) true [(0%nat, [(0%nat, Raw 4)])]
+  execute [a] (build [a] [(0, 0, 0, 0)%nat]) (hs [HSRet [(0%nat, SV (Raw 1))]]) true [(0%nat, [(0%nat, Raw 4)])]
   = (Raised EMultiVal, [(0%nat, [Some (mkTV DText Untrusted 4)])]).
 Proof. reflexivity. Qed.
 
@@ -105,7 +105,7 @@ Definition two_src := [mkModule [] [(DText, Trusted)] []; mkModule [] [(DText, V
 Example ex_duplicate_source :
   duplicate_source (build two_src [(0, 0, 2, 0); (1, 0, 2, 0)]%nat) /\
   execute two_src (build two_src [(0, 0, 2, 0); (1, 0, 2, 0)]%nat)
-          (hs [HSRet [(0%nat, Raw 1)]; HSRet [(0%nat, Raw 1)]]) true [] = (Raised EMultiSrc, []).
+          (hs [HSRet [(0%nat, SV (Raw 1))]; HSRet [(0%nat, SV (Raw 1))]]) true [] = (Raised EMultiSrc, []).
 Proof.
   split; [|reflexivity]. exists [], (0, 0, 2, 0)%nat, [], (1, 0, 2, 0)%nat, []. repeat split.
 Qed.
@@ -121,14 +121,14 @@ Proof.
 Qed.
 
 Example ex_missing_handler :
-  missing_handler ok_mods (hs [HSNone; HSNone; HSRet [(0%nat, Raw 10)]]) /\
-  execute ok_mods (build ok_mods ok_attempts) (hs [HSNone; HSNone; HSRet [(0%nat, Raw 10)]]) true []
+  missing_handler ok_mods (hs [HSNone; HSNone; HSRet [(0%nat, SV (Raw 10))]]) /\
+  execute ok_mods (build ok_mods ok_attempts) (hs [HSNone; HSNone; HSRet [(0%nat, SV (Raw 10))]]) true []
   = (Raised ENoHandler, []).
 Proof. split; [|reflexivity]. exists 1%nat, src. repeat split. discriminate. Qed.
 
 (* a handler's own exception is the only non-WiringError outcome *)
 Example ex_handler_raises :
-  let handlers := hs [HSNone; HSRaise; HSRet [(0%nat, Raw 10)]] in
+  let handlers := hs [HSNone; HSRaise; HSRet [(0%nat, SV (Raw 10))]] in
   execute ok_mods (build ok_mods ok_attempts) handlers true [] = (Raised EHandlerRaised, [(1%nat, [])]) /\
   handler_raised handlers [(1%nat, [])].
 Proof.
@@ -144,14 +144,71 @@ Proof. reflexivity. Qed.
    not a TypedValue, so it is given exactly the port's label *)
 Definition gate := mkModule [(DApproval, Trusted)] [(DApproval, Trusted)] [CMoney].
 Example ex_raw_claim :
-  fst (execute [gate] [] (hs [HSRet [(0%nat, RawClaim (Some DText) (Some Validated) 7)]]) true
+  fst (execute [gate] [] (hs [HSRet [(0%nat, SV (RawClaim (Some DText) (Some Validated) 7))]]) true
                [(0%nat, [(0%nat, RawClaim None (Some Untrusted) 5)])])
   = Report [0%nat] [(0%nat, [Some (mkTV DApproval Trusted 5)], [mkTV DApproval Trusted 12])].
 Proof. reflexivity. Qed.
 
+(* ---- relays: a handler that hands back the value it received ---- *)
+(* src (Text, Trusted) --downgrading wire--> relay.in (Text, Validated); relay.out is declared (Text, Validated)
+   too and wired into a (Text, Untrusted) sink.  The forwarded value is labelled Trusted: rejected, although
+   it entered through a port of the very type of the output port.  The hypotheses of
+   c16_forwarded_value_judged_by_its_label hold, with p = pin and the label above the port's. *)
+Definition r_src := mkModule [] [(DText, Trusted)] [].
+Definition relay (pi po : ptype) := mkModule [pi] [po] [].
+Definition r_snk := mkModule [(DText, Untrusted)] [] [].
+Definition relay_mods := [r_src; relay (DText, Validated) (DText, Validated); r_snk].
+Definition relay_attempts : list wire := [(0, 0, 1, 0); (1, 0, 2, 0)]%nat.
+Definition relay_hs := hs [HSRet [(0%nat, SV (Raw 7))]; HSRet [(0%nat, SFwd 0)]; HSNone].
+
+Example ex_relay_over_labelled :
+  let t := mkTV DText Trusted 7 in
+  exists h,
+    build relay_mods relay_attempts = relay_attempts /\
+    execute relay_mods (build relay_mods relay_attempts) relay_hs true []
+      = (Raised EOutInteg, [(0%nat, []); (1%nat, [Some t])]) /\
+    relay_hs 1%nat = Some h /\ h [Some t] = HRet [(0%nat, Lab t)] /\
+    nth_error (m_out (relay (DText, Validated) (DText, Validated))) 0 = Some (DText, Validated) /\
+    nth_error (m_in (relay (DText, Validated) (DText, Validated))) 0 = Some (DText, Validated) /\
+    typed t (DText, Validated) /\ tv_il t <> Validated.
+Proof.
+  eexists. split; [reflexivity|]. split; [vm_compute; reflexivity|]. split; [reflexivity|].
+  split; [reflexivity|]. split; [reflexivity|]. split; [reflexivity|]. split; [|discriminate].
+  split; [reflexivity|]. cbn. auto.
+Qed.
+
+(* the same with an over-labelled external input: (Json, Trusted) given to a (Json, Untrusted) port and
+   handed back on a (Json, Untrusted) port *)
+Example ex_relay_external :
+  fst (execute [relay (DJson, Untrusted) (DJson, Untrusted)] [] (hs [HSRet [(0%nat, SFwd 0)]]) true
+               [(0%nat, [(0%nat, Lab (mkTV DJson Trusted 1))])]) = Raised EOutInteg.
+Proof. reflexivity. Qed.
+
+(* a relay whose output port is declared at the value's own label reports: from a (Text, Validated) input to a
+   (Text, Trusted) output -- same data type, input integrity <= output integrity *)
+Example ex_relay_exact :
+  fst (execute [r_src; relay (DText, Validated) (DText, Trusted); r_snk]
+               (build [r_src; relay (DText, Validated) (DText, Trusted); r_snk] relay_attempts) relay_hs true [])
+  = Report [0; 1; 2]%nat
+           [(0%nat, [], [mkTV DText Trusted 7]);
+            (1%nat, [Some (mkTV DText Trusted 7)], [mkTV DText Trusted 7]);
+            (2%nat, [Some (mkTV DText Trusted 7)], [])].
+Proof. reflexivity. Qed.
+
+(* one value under two keys and returned by two modules ([SConst]): judged port by port, by its label alone *)
+Example ex_shared_value :
+  let v := mkTV DText Validated 3 in
+  let two := mkModule [] [(DText, Validated); (DText, Validated)] [] in
+  let low := mkModule [] [(DText, Untrusted)] [] in
+  fst (execute [two] [] (hs [HSRet [(0%nat, SConst v); (1%nat, SConst v)]]) true [])
+    = Report [0%nat] [(0%nat, [], [v; v])] /\
+  execute [two; low] [] (hs [HSRet [(0%nat, SConst v); (1%nat, SConst v)]; HSRet [(0%nat, SConst v)]]) true []
+    = (Raised EOutInteg, [(0%nat, []); (1%nat, [])]).
+Proof. split; reflexivity. Qed.
+
 (* ---- invocation order in an execution that raises: m1, then m2 (whose output is mislabelled) ---- *)
 Example ex_topological_in_failing_run :
-  let handlers := hs [HSNone; good_h; HSRet [(0%nat, Lab (mkTV DText Untrusted 10))]] in
+  let handlers := hs [HSNone; good_h; HSRet [(0%nat, SV (Lab (mkTV DText Untrusted 10)))]] in
   exists r1 r2,
     execute ok_mods (build ok_mods ok_attempts) handlers true [] = (Raised EOutInteg, [(1%nat, r1); (2%nat, r2)]) /\
     In (1, 1, 2, 0)%nat (build ok_mods ok_attempts).
@@ -167,7 +224,7 @@ Definition hist_ops : list xop :=
   [XExec [] true; XReg 1%nat (h_of good_h); XReg 7%nat (h_of good_h); XExec [] false;
    XReg 2%nat (h_of HSRaise); XExec [] true; XNew; XExec [] true].
 Example ex_history :
-  let hs0 := hs [HSNone; bad_h; HSRet [(0%nat, Raw 10)]] in
+  let hs0 := hs [HSNone; bad_h; HSRet [(0%nat, SV (Raw 10))]] in
   map (fun e => match e with
                 | EvReg ok => (if ok then 100 else 101, [])
                 | EvNew => (102, [])
